@@ -5,6 +5,8 @@ import (
 	"crypto/tls"
 	"fmt"
 	"io"
+	"runtime/debug"
+	"strings"
 	"sync"
 	"time"
 
@@ -14,6 +16,84 @@ import (
 )
 
 const caseWatchdog = 60 * time.Second
+
+// panicBox collects a panic raised on one of the goroutines of a case (bfe's
+// server side runs on its own goroutine, out of reach of Run.Try).
+type panicBox struct {
+	mu       sync.Mutex
+	val      interface{}
+	stack    []byte
+	reported bool
+}
+
+var (
+	allPanicsMu sync.Mutex
+	allPanics   []*panicBox
+)
+
+// leftoverPanics reports panics of helper connections (session set-up etc.)
+// whose caller did not look at them.
+func leftoverPanics(r *vkit.Run) {
+	allPanicsMu.Lock()
+	ps := append([]*panicBox(nil), allPanics...)
+	allPanicsMu.Unlock()
+	for _, p := range ps {
+		p.mu.Lock()
+		done := p.reported
+		p.mu.Unlock()
+		if !done {
+			panicCheck(r, p, "helper connection (session set-up)")
+		}
+	}
+}
+
+// guard must be deferred first in every goroutine of a case.
+func (p *panicBox) guard(closers ...io.Closer) {
+	if e := recover(); e != nil {
+		p.mu.Lock()
+		first := p.val == nil
+		if first {
+			p.val, p.stack = e, debug.Stack()
+		}
+		p.mu.Unlock()
+		if first {
+			allPanicsMu.Lock()
+			allPanics = append(allPanics, p)
+			allPanicsMu.Unlock()
+		}
+		for _, c := range closers {
+			c.Close()
+		}
+	}
+}
+
+// panicCheck reports a collected panic: with a bfe frame on the stack it is a
+// violation, otherwise a harness defect (inconclusive). It returns true if
+// there was one.
+func panicCheck(r *vkit.Run, p *panicBox, what interface{}) bool {
+	if p == nil {
+		return false
+	}
+	p.mu.Lock()
+	defer p.mu.Unlock()
+	if p.val == nil {
+		return false
+	}
+	if p.reported {
+		return true
+	}
+	p.reported = true
+	st := string(p.stack)
+	if len(st) > 4000 {
+		st = st[:4000]
+	}
+	if strings.Contains(st, "github.com/bfenetworks/bfe/") {
+		r.Violation(vkit.PanicSig(p.stack), fmt.Sprintf("panic: %v", p.val), map[string]interface{}{"case": what, "panic": fmt.Sprint(p.val), "stack": st})
+	} else {
+		r.Inconclusive(fmt.Sprintf("harness panic: %v\n%s", p.val, st))
+	}
+	return true
+}
 
 // pairResult is everything observed of one standard-client <-> bfe-server
 // connection.
@@ -25,6 +105,7 @@ type pairResult struct {
 	S2C            []byte     // all server->client bytes
 	C2S            []byte     // all client->server bytes
 	Hung           bool
+	Panic          *panicBox
 	SrvGot         []byte // application bytes the server read
 	CliGot         []byte // application bytes the client read
 	EchoErr        string
@@ -43,7 +124,7 @@ func errStr(e error) string {
 // bfe_tls.Server over a buffered in-memory pipe and, if both sides complete
 // it, sends toSrv client->server and toCli server->client.
 func runPair(scfg *bfe_tls.Config, ccfg *tls.Config, toSrv, toCli []byte) *pairResult {
-	res := &pairResult{}
+	res := &pairResult{Panic: &panicBox{}}
 	cEnd, sEnd := newBufPipe()
 	srv := bfe_tls.Server(sEnd, scfg)
 	cli := tls.Client(cEnd, ccfg)
@@ -56,6 +137,7 @@ func runPair(scfg *bfe_tls.Config, ccfg *tls.Config, toSrv, toCli []byte) *pairR
 	go func() {
 		defer wg.Done()
 		defer sEnd.Close()
+		defer res.Panic.guard(sEnd, cEnd)
 		if srvErr = srv.Handshake(); srvErr != nil {
 			return
 		}
@@ -84,6 +166,7 @@ func runPair(scfg *bfe_tls.Config, ccfg *tls.Config, toSrv, toCli []byte) *pairR
 	go func() {
 		defer wg.Done()
 		defer cEnd.Close()
+		defer res.Panic.guard(sEnd, cEnd)
 		if cliErr = cli.Handshake(); cliErr != nil {
 			return
 		}
@@ -137,6 +220,7 @@ type rawResult struct {
 	Flight *srvFlight
 	SrvErr error
 	Hung   bool
+	Panic  *panicBox
 }
 
 // runRaw sends one ClientHello record to a bfe server and reads the server's
@@ -148,17 +232,19 @@ func runRaw(scfg *bfe_tls.Config, hello []byte) *rawResult {
 	wd := newWatchdog(caseWatchdog, cEnd, sEnd)
 	var wg sync.WaitGroup
 	var srvErr error
+	pb := &panicBox{}
 	wg.Add(1)
 	go func() {
 		defer wg.Done()
 		defer sEnd.Close()
+		defer pb.guard(sEnd, cEnd)
 		srvErr = srv.Handshake()
 	}()
 	cEnd.Write(hello)
 	f := readServerFlight(cEnd)
 	cEnd.Close()
 	wg.Wait()
-	return &rawResult{Flight: f, SrvErr: srvErr, Hung: wd.stop()}
+	return &rawResult{Flight: f, SrvErr: srvErr, Hung: wd.stop(), Panic: pb}
 }
 
 // captureCache is a crypto/tls ClientSessionCache that ignores the key (so a
@@ -222,6 +308,14 @@ func (c *captureCache) clone() *captureCache {
 	c.mu.Lock()
 	defer c.mu.Unlock()
 	return &captureCache{cur: c.cur}
+}
+
+// abnormal reports a hung or panicked case; the caller skips its oracle then.
+func abnormal(r *vkit.Run, hung bool, p *panicBox, what interface{}) bool {
+	if panicCheck(r, p, what) {
+		return true
+	}
+	return hangCheck(r, hung, what)
 }
 
 func hangCheck(r *vkit.Run, hung bool, what interface{}) bool {
